@@ -7,6 +7,9 @@ import re
 
 ROOT = os.path.dirname(os.path.dirname(os.path.abspath(__file__)))
 NOTES = {
+    "C07-F": "not detected - outside what the property and the check cover: the change is in the FILE-backend counter (runcounter.txt), which "
+             "the code itself marks as an unsafe check-and-set used only without Consul; the property's anchors and C07's assumptions name the "
+             "Consul key as the shared counter (DESIGN C07, assumption list of the evidence)",
     "C10-C": "not detected - the same change as C07-B (a held run number is used again), written independently for C10; not reachable "
              "through the API for the same reason (needs RECOVER)",
     "C07-B": "not detected - and not reachable: the changed path needs FSM event RECOVER (ERROR -> DEPLOYED), which no API request, timer "
